@@ -845,7 +845,7 @@ def history_ops(rng, family, mode, bs, w, k):
             elif r < 0.85 and mode != "ofb":
                 ops.append(f"seek u64 {rng.randrange(0, 2**20)}")
             elif mode != "ofb":
-                ops.append("pos u64")
+                ops.append(rng.choice(["pos u64", "pos u128", "rem"]))
             else:
                 ops.append("corestate")
         elif family == "core":
@@ -855,10 +855,23 @@ def history_ops(rng, family, mode, bs, w, k):
             elif r < 0.8:
                 ops.append("ksblock")
             elif mode != "ofb":
-                ops.append("getpos")
+                ops.append(rng.choice(["getpos", "rem", "ivstate"]))
             else:
                 ops.append("ivstate")
     return ops
+
+
+def far_position_op(rng, family, mode):
+    """place a keystream object far from the start: next to the end of the keystream, beyond 2^32 / 2^64 blocks,
+    at a random block — so that state carried in the high bits of the block counter is observable afterwards"""
+    limb = limit_blocks(mode)
+    wb = counter_bits(mode)
+    cands = [limb - 1, limb - 2, limb - 3, limb // 2, 2 ** (wb // 2) + 5, rng.randrange(0, limb)]
+    if wb > 64:
+        cands += [2 ** 64 + 7, 2 ** 64 - 1, 3 * 2 ** 64 + 5]
+    if wb > 32:
+        cands += [2 ** 32 + 3, 2 ** 32 - 1]
+    return f"{'fromcore' if family == 'stream' else 'setpos'} {rng.choice(cands)}"
 
 
 def run_C16(ctx):
@@ -873,6 +886,8 @@ def run_C16(ctx):
             key = rb(rng, 16)
             iv = stream_iv(rng, mode, bs, key)[0] if fam in ("stream", "core") else rb(rng, ivlen(mode, bs))
             h1 = history_ops(rng, fam, mode, bs, w, rng.randrange(0, 4))
+            if fam in ("stream", "core") and mode != "ofb" and rng.random() < 0.4:
+                h1.append(far_position_op(rng, fam, mode))
             h2 = history_ops(rng, fam, mode, bs, w, rng.randrange(1, 5))
             h3 = history_ops(rng, fam, mode, bs, w, rng.randrange(1, 5))
             # interleave h2 (original, instance 0) and h3 (clone, instance 1)
